@@ -16,8 +16,8 @@ import sys
 
 PROPERTY = "C19"
 LEVEL = "exploration"
-RULE = ("Tag multisets of size <= 3 (quick) / <= 5 (thorough) over the 14-tag alphabet {use/not/only/active/not_active "
-        "tags of categories a, b, dotted c.d, unknown zz, a tag without separator, two ordinary tags} (each multiset in "
+RULE = ("Tag multisets of size <= 3 (quick) / <= 4 (thorough; size 5 with plain string values only) over the 14-tag "
+        "alphabet {use/not/only/active/not_active tags of categories a, b, dotted c.d, unknown zz, a tag without separator, two ordinary tags} (each multiset in "
         "ascending and descending order) x 36 current-value assignments (a in 1,2,3,absent; b in x,y,absent; c.d in "
         "1,2,absent) x 10 ways of supplying the value (str, ValueObject, lazy callable, ValueObject over a callable, "
         "NumberValueObject eq/ge/le, ValueObject ne, ValueObject contains, BoolValueObject with malformed tag values) x "
@@ -160,88 +160,114 @@ def query(matcher, tags):
         return "EXC", type(ex).__name__
 
 
-def judge(v, got, want, desc_extra, what, tags, diag=None):
-    """compare one (exclude, run) observation with the wanted exclusion; append violations"""
+def model_provider(known):
+    """the simplest provider that realises the reference predicates: the verdict of the matcher core on it
+    tells a defect of the formula apart from a defect of a value object / provider class"""
+    return dict((c, TM.ValueObject(None, (lambda _cur, tv, p=p: p(tv)))) for c, p in known.items())
+
+
+def signature(tags, known):
+    """class of a (minimal) tag list: polarity and reference match of every tag"""
+    out = []
+    for t in tags:
+        p = parse_active(t, DEFAULT_PREFIXES, "=")
+        if p is None:
+            out.append("other")
+        elif p[1] not in known:
+            out.append("%s:unknown-category" % ("neg" if p[0] in NEGATIVE else "pos"))
+        else:
+            out.append("%s:%s" % ("neg" if p[0] in NEGATIVE else "pos", "match" if known[p[1]](p[2]) else "nomatch"))
+    return "+".join(sorted(out)) or "empty"
+
+
+def diagnose(tags, known, make, pkind, kind_label, memo):
+    """minimal trigger class of a wrong verdict (runs only when a violation was found):
+    the smallest sub-list that is still decided wrongly, its signature, and whether the matcher core
+    (model provider), the provider class (same values in a plain dict are fine) or the value kind is at fault.
+    make(pkind) -> fresh matcher over the same current values."""
+    key = (tuple(sorted(tags)), pkind, kind_label)
+    if key in memo:
+        return memo[key]
+    tags = list(tags)
+    sub = tags
+    for k in range(1, len(tags)):
+        hit = None
+        for idx in itertools.combinations(range(len(tags)), k):
+            cand = [tags[i] for i in idx]
+            if query(make(pkind), cand)[0] != ref_exclude(cand, known):
+                hit = cand
+                break
+        if hit is not None:
+            sub = hit
+            break
+    d = {"trigger": signature(sub, known)}
+    want = ref_exclude(sub, known)
+    if query(TM.ActiveTagMatcher(model_provider(known)), sub)[0] != want:
+        pass                                        # the core logic is wrong whatever the provider
+    elif pkind != "dict" and query(make("dict"), sub)[0] == want:
+        d["provider"] = family(pkind)               # same values in a plain dict are decided correctly
+    else:
+        d["kind"] = kind_label
+    memo[key] = d
+    return d
+
+
+def judge(v, got, want, what, tags, diag=None, extra=None):
+    """compare one (exclude, run) observation with the wanted exclusion; append violations.
+    diag() -> descriptor fields naming the minimal trigger class (called only on a wrong verdict)"""
     if got[0] == "EXC":
         d = {"subcheck": "exclude", "clause": "raises", "exc": got[1]}
-        d.update(desc_extra)
+        d.update(extra or {})
         v.append((d, "%s: tags %r raised %s" % (what, list(tags), got[1])))
         return False
     ok = True
     if got[0] != want:
-        clause = diag() if diag else None
-        d = {"subcheck": "exclude", "clause": clause or "formula",
+        d = {"subcheck": "exclude", "clause": "formula",
              "direction": "excluded-but-must-run" if got[0] else "runs-but-must-be-excluded"}
-        d.update(desc_extra)
-        if clause == "unknown-category-not-ignored":
-            # the trigger class is the provider family alone (any value kind, any tag list with such a tag)
-            d.pop("kind", None)
-            d.pop("providers", None)
+        d.update(extra or {})
+        if diag:
+            d.update(diag())
         v.append((d, "%s: tags %r -> should_exclude_with says %s, the documented logic says %s"
                   % (what, list(tags), got[0], want)))
         ok = False
     if got[1] != (not got[0]):
         d = {"subcheck": "run-vs-exclude", "clause": "should_run_with-is-not-negation"}
-        d.update(desc_extra)
+        d.update(extra or {})
         v.append((d, "%s: tags %r -> should_exclude_with %s but should_run_with %s" % (what, list(tags), got[0], got[1])))
         ok = False
     return ok
 
 
-def unknown_diag(tags, known, mk, want):
-    """diagnosis of a wrong verdict: does behave agree once the active tags of categories unknown to the
-    provider are removed?  (then the trigger is 'unknown category not ignored', whatever else is in the list)"""
-    def diag():
-        kept = []
-        for t in tags:
-            p = parse_active(t, DEFAULT_PREFIXES, "=")
-            if p is None or p[1] in known:
-                kept.append(t)
-        if len(kept) != len(tags) and query(mk(), kept)[0] == want:
-            return "unknown-category-not-ignored"
-        return None
-    return diag
-
-
 def check_multiset(case):
     """one (tag multiset, assignment): kinds x providers x orders, matcher variants"""
-    idxs, (a, b, cd) = case
+    idxs, (a, b, cd) = case[:2]
+    kinds = KINDS if (len(case) < 3 or case[2]) else ("str",)
     tags_up = tuple(ALPHABET[i] for i in idxs)
     orders = [tags_up] if len(set(tags_up)) <= 1 else [tags_up, tuple(reversed(tags_up))]
     current = [(c, x) for c, x in (("a", a), ("b", b), ("c.d", cd)) if x is not None]
     v, obs, n = [], [], 0
-    failed = set()
+    memo = {}
+    base_failed = False
 
-    def trigger(kind, pkind):
-        # minimal trigger class: name the value kind / provider family only if the simpler configuration passes
-        if ("str", "dict") in failed:
-            return {}
-        if (kind, "dict") in failed:
-            return {"kind": kind}
-        if ("str", pkind) in failed:
-            return {"provider": family(pkind)}
-        d = {}
-        if kind != "str":
-            d["kind"] = kind
-        if pkind != "dict":
-            d["provider"] = family(pkind)
-        return d
-
-    for kind in KINDS:
+    for kind in kinds:
         known = dict((c, ref_predicate(kind, x)) for c, x in current)
+
+        def make(pkind, kind=kind):
+            return TM.ActiveTagMatcher(make_provider(pkind, [(c, real_value(kind, x)) for c, x in current]))
         for pkind in ("dict", "atvp", "comp"):
-            def mk(kind=kind, pkind=pkind):
-                return TM.ActiveTagMatcher(make_provider(pkind, [(c, real_value(kind, x)) for c, x in current]))
             for oi, tags in enumerate(orders):
                 want = ref_exclude(tags, known)
-                m = mk()
+                m = make(pkind)
                 got = query(m, tags)
                 n += 1
                 obs.append((kind, pkind, oi, got))
-                extra = trigger(kind, pkind)
                 what = "value kind %s, provider %s, current values %r" % (kind, pkind, dict(current))
-                if not judge(v, got, want, extra, what, tags, unknown_diag(tags, known, mk, want)):
-                    failed.add((kind, pkind))
+                ok = judge(v, got, want, what, tags,
+                           lambda tags=tags, known=known, make=make, pkind=pkind, kind=kind:
+                           diagnose(tags, known, make, pkind, kind, memo),
+                           extra={"kind": kind, "provider": family(pkind)} if got[0] == "EXC" else None)
+                if not ok and (kind, pkind) == ("str", "dict"):
+                    base_failed = True
                 if pkind == "comp" and got[0] != "EXC":
                     # the composite provider caches discovered categories: probe, then ask again
                     gp = query(m, PROBE)
@@ -255,8 +281,9 @@ def check_multiset(case):
                     elif gp[0] != wp:
                         # wrong on the probe: a cache effect only if a fresh matcher answers the probe differently
                         # (otherwise it is a defect of single queries, which the enumeration of tag lists reports)
-                        if query(mk(), PROBE) != gp:
-                            stale = "probe gave %r, a fresh matcher gives %r" % (gp, query(mk(), PROBE))
+                        fresh = query(make(pkind), PROBE)
+                        if fresh != gp:
+                            stale = "probe gave %r, a fresh matcher gives %r" % (gp, fresh)
                     if stale:
                         v.append(({"subcheck": "exclude", "clause": "changes-on-requery",
                                    "provider": "CompositeActiveTagValueProvider"},
@@ -296,18 +323,18 @@ def check_multiset(case):
                      lambda: TM.CompositeTagMatcher([TM.PredicateTagMatcher(lambda ts: "foo" in ts),
                                                      TM.ActiveTagMatcher(dict(vals))]),
                      tags, ("foo" in tags) or ref_exclude(tags, known)))
-    base_failed = ("str", "dict") in failed
     for vname, mkv, vtags, want in variants:
         got = query(mkv(), vtags)
         n += 1
         obs.append((vname, got))
+        if base_failed and got[0] != "EXC" and got[0] != want:
+            continue            # the default matcher already decides this very case wrongly: reported above
         vclass = vname.split("=")[0] if "=" in vname else "composite"
-        extra = {} if base_failed else {"variant": vclass}
-        judge(v, got, want, extra, "matcher variant %s, current values %r" % (vname, vals), vtags)
+        judge(v, got, want, "matcher variant %s, current values %r" % (vname, vals), vtags, extra={"variant": vclass})
 
     nt = None
     if any((parse_active(t, DEFAULT_PREFIXES, "=") or (0, None))[1] in vals for t in tags_up):
-        nt = ("main", case)
+        nt = ("main", tuple(case[:2]))
     out = obs[0][3] if obs else None
     return {"v": v, "nt": nt, "out": ("main", out, len(tags_up)), "dg": obs, "n": n}
 
@@ -332,22 +359,22 @@ def check_bool(case):
     orders = [tags_up] if len(set(tags_up)) <= 1 else [tags_up, tuple(reversed(tags_up))]
     known = {} if cur is None else {"f": ref_bool_predicate(cur)}
     v, obs, n = [], [], 0
+    memo = {}
+
+    def make(pkind):
+        vals = []
+        if cur is not None:
+            vals = [("f", TM.BoolValueObject((lambda: cur) if lazy else cur))]
+        return TM.ActiveTagMatcher(make_provider(pkind, vals))
     for pkind in ("dict", "atvp", "comp"):
         for oi, tags in enumerate(orders):
-            vals = []
-            if cur is not None:
-                vals = [("f", TM.BoolValueObject((lambda: cur) if lazy else cur))]
-            mk = lambda pkind=pkind, vals=vals: TM.ActiveTagMatcher(make_provider(pkind, vals))     # noqa: E731
-            got = query(mk(), tags)
+            got = query(make(pkind), tags)
             n += 1
             obs.append((pkind, oi, got))
-            extra = {"kind": "bool"}
-            if pkind != "dict":
-                extra["provider"] = family(pkind)
-            want = ref_exclude(tags, known)
-            judge(v, got, want, extra, "category f %s, provider %s"
+            judge(v, got, ref_exclude(tags, known), "category f %s, provider %s"
                   % ("absent" if cur is None else "= BoolValueObject(%s%r)" % ("lazy " if lazy else "", cur), pkind),
-                  tags, unknown_diag(tags, known, mk, want))
+                  tags, lambda tags=tags, pkind=pkind: diagnose(tags, known, make, pkind, "bool", memo),
+                  extra={"kind": "bool", "provider": family(pkind)} if got[0] == "EXC" else None)
     nt = ("bool", case) if (cur is not None and tags_up) else None
     return {"v": v, "nt": nt, "out": ("bool", obs[0][2]), "dg": obs, "n": n}
 
@@ -447,39 +474,41 @@ def check_shipped(idxs):
     tags_up = tuple(S["tags"][i] for i in idxs)
     orders = [tags_up] if len(set(tags_up)) <= 1 else [tags_up, tuple(reversed(tags_up))]
     v, obs, n = [], [], 0
-    configs = (("python", lambda: S["PY"], S["py"], "dict"),
-               ("python_feature", lambda: S["PF"], S["pf"], "dict"),
-               ("ActiveTagValueProvider(python)", lambda: TM.ActiveTagValueProvider(dict(S["PY"])), S["py"], "atvp"),
+    both_real = dict(S["PY"])
+    both_real.update(S["PF"])
+    # (name, provider factory, reference categories, provider kind, the same values as one plain dict)
+    configs = (("python", lambda: S["PY"], S["py"], "dict", S["PY"]),
+               ("python_feature", lambda: S["PF"], S["pf"], "dict", S["PF"]),
+               ("ActiveTagValueProvider(python)", lambda: TM.ActiveTagValueProvider(dict(S["PY"])), S["py"], "atvp", S["PY"]),
                ("Composite(python,python_feature)",
-                lambda: TM.CompositeActiveTagValueProvider([S["PY"], S["PF"]]), S["both"], "comp"))
+                lambda: TM.CompositeActiveTagValueProvider([S["PY"], S["PF"]]), S["both"], "comp", both_real))
     cats = set()
-    for cname, mkp, known, pkind in configs:
+    memo = {}
+    for cname, mkp, known, pkind, plain in configs:
+        def make(pk, mkp=mkp, plain=plain):
+            return TM.ActiveTagMatcher(dict(plain) if pk == "dict" else mkp())
         for oi, tags in enumerate(orders):
             want = ref_exclude(tags, known)
-            mk = lambda mkp=mkp: TM.ActiveTagMatcher(mkp())       # noqa: E731
-            got = query(mk(), tags)
+            got = query(TM.ActiveTagMatcher(mkp()), tags)
             n += 1
             obs.append((cname, oi, got))
-            active = [parse_active(t, DEFAULT_PREFIXES, "=") for t in tags]
-            involved = sorted(set(p[1] for p in active if p and p[1] in known))
+            involved = sorted(set(p[1] for p in (parse_active(t, DEFAULT_PREFIXES, "=") for t in tags)
+                                  if p and p[1] in known))
             cats.update(involved)
 
-            def diag(tags=tags, known=known, mk=mk, want=want):
-                kept = [t for t in tags
-                        if parse_active(t, DEFAULT_PREFIXES, "=") is None or parse_active(t, DEFAULT_PREFIXES, "=")[1] in known]
-                if len(kept) != len(tags) and query(mk(), kept)[0] == want:
-                    return "unknown-category-not-ignored"
-                # name the shipped category whose group is decided wrongly (single-category re-query)
-                for c in involved:
-                    sub = [t for t in tags if (parse_active(t, DEFAULT_PREFIXES, "=") or (0, 0))[1] == c]
-                    if query(mk(), sub)[0] != ref_exclude(sub, known):
-                        return "shipped-category:%s" % c
-                return None
-            extra = {"providers": "shipped"}
-            if pkind != "dict":
-                extra["provider"] = family(pkind)
-            judge(v, got, want, extra, "shipped provider %s on Python %s / %s"
-                  % (cname, ".".join(map(str, sys.version_info[:3])), sys.platform), tags, diag)
+            def diag(tags=tags, known=known, make=make, pkind=pkind):
+                d = dict(diagnose(tags, known, make, pkind, "shipped", memo))
+                if d.get("kind") == "shipped":
+                    # name the shipped category whose group is decided wrongly (single-category re-query)
+                    for c in involved:
+                        sub = [t for t in tags if (parse_active(t, DEFAULT_PREFIXES, "=") or (0, 0))[1] == c]
+                        if query(make(pkind), sub)[0] != ref_exclude(sub, known):
+                            d["kind"] = "shipped:%s" % c
+                            break
+                return d
+            judge(v, got, want, "shipped provider %s on Python %s / %s"
+                  % (cname, ".".join(map(str, sys.version_info[:3])), sys.platform), tags, diag,
+                  extra={"kind": "shipped", "provider": family(pkind)} if got[0] == "EXC" else None)
     nt = (idxs if cats else None)
     return {"v": v, "nt": ("shipped", nt) if nt is not None else None, "out": ("shipped", obs[0][2], tuple(sorted(cats))[:2]),
             "dg": obs, "n": n}
@@ -494,17 +523,21 @@ def multisets(nsym, maxsize):
 
 def run(ctx):
     init_worker()
-    size = 3 if ctx.quick else 5
+    size = 3 if ctx.quick else 4
     bsize = 3 if ctx.quick else 4
     ssize = 2 if ctx.quick else 3
     ntags = len(shipped_tags())
-    ctx.bounds = {"multiset_size": size, "alphabet": list(ALPHABET), "assignments": len(ASSIGNMENTS),
+    ctx.bounds = {"multiset_size": size, "multiset_size_plain_strings": size if ctx.quick else 5, "alphabet": list(ALPHABET), "assignments": len(ASSIGNMENTS),
                   "value_kinds": list(KINDS), "providers": ["dict", "ActiveTagValueProvider", "Composite(2)"],
                   "bool_multiset_size": bsize, "shipped_tag_pool": ntags, "shipped_multiset_size": ssize}
     ctx.note("python", ".".join(map(str, sys.version_info[:3])))
     ctx.note("platform", sys.platform)
     ctx.sweep(check_multiset, ((ms, asg) for ms in multisets(len(ALPHABET), size) for asg in ASSIGNMENTS),
               chunk=32, name="tag multisets x assignments")
+    if not ctx.quick:
+        ctx.sweep(check_multiset, ((ms, asg, 0) for ms in itertools.combinations_with_replacement(range(len(ALPHABET)), 5)
+                                   for asg in ASSIGNMENTS),
+                  chunk=64, name="tag multisets of size 5, plain string values")
     ctx.sweep(check_bool, ((ms, cur, lazy) for ms in multisets(len(BOOL_ALPHABET), bsize)
                            for cur in (True, False, None) for lazy in (False, True) if not (cur is None and lazy)),
               chunk=32, name="boolean value objects")
